@@ -3,7 +3,7 @@ virtual clock, with harness buses, probe devices and ticker instrumentation.
 
 Scenario (JSON-able dict):
   {"components": [comp...], "t0": int, "speed": [num, den],
-   "stims": [{"real": ns_after_start | "step": loop_step, "comp": name}],
+   "stims": [{"real": ns_after_start [, "yields": loop iterations after that] | "step": loop_step, "comp": name}],
    "n_ticks": int, "start_delays": {proc: steps}, "max_real": ns}
   comp := {"name", "kind": "dev", "inputs": {port: [src, port]}, "beh": {...}}
         | {"name", "kind": "sys", "inputs": {...}, "components": [...], "expose": {port: [c, p]}}
@@ -15,7 +15,7 @@ import asyncio
 import itertools
 from contextlib import contextmanager
 
-from buses import HeldBus, PrefixChooser, SeededChooser, SyncBus, Trace
+from buses import HeldBus, PrefixChooser, RealInternalBus, SeededChooser, SyncBus, Trace
 from vloop import run_virtual
 
 
@@ -302,6 +302,8 @@ def run_scenario(scn, *, bus="sync", chooser=None, seed=0, max_steps=None, use_s
         info["start_real"] = start_real
         if bus == "sync":
             b = SyncBus(trace, loop)
+        elif bus == "internal":
+            b = RealInternalBus(trace, loop)
         else:
             b = HeldBus(trace, chooser or SeededChooser(seed), loop)
             b.start()
@@ -332,6 +334,10 @@ def run_scenario(scn, *, bus="sync", chooser=None, seed=0, max_steps=None, use_s
         async def stim_task(st):
             if "real" in st:
                 await asyncio.sleep(st["real"] / 1e9)
+            for _ in range(st.get("yields", 0)):
+                # arrive a given number of loop iterations after that instant (sweeps across a tick that
+                # runs at the same virtual instant when iterations cost no real time)
+                await asyncio.sleep(0)
             if st.get("pre_cost"):
                 # the adapter does some work before it raises (real time passes inside this loop iteration,
                 # so timers that become due meanwhile have not fired yet when the interrupt is handled)
@@ -370,7 +376,7 @@ def run_scenario(scn, *, bus="sync", chooser=None, seed=0, max_steps=None, use_s
                 if stop_when(trace, info):
                     stop_fut.set_result("cond")
                     return
-            elif done_ticks() >= n_ticks and (bus == "sync" or info["bus"].idle()):
+            elif done_ticks() >= n_ticks and (bus in ("sync", "internal") or info["bus"].idle()):
                 stop_fut.set_result("ticks")
                 return
             if all(t.done() for t in tasks):
